@@ -38,6 +38,15 @@ def index(g):
     return {r["name"]: i for i, r in enumerate(g)}
 
 
+def label_index(g):
+    """labels interned in order of first appearance in load order (the same numbering coq_graph uses)"""
+    labs = {}
+    for r in g:
+        for l in r.get("labels", ()):
+            labs.setdefault(l, len(labs))
+    return labs
+
+
 def coq_graph(g, m):
     """Coq term for the graph with the OBSERVED resolved / normalized dependencies (order oracle)"""
     from harness import coqfmt as cf
